@@ -10,7 +10,7 @@ use derive_more::{Deref, DerefMut};
 use mahf::{
     components::{Block, Branch, Loop, Scope},
     conditions::{And, Condition, Not, Or},
-    state::{common::Iterations, StateReq},
+    state::{common::{Evaluations, Iterations}, StateReq},
     Component, Configuration, CustomState, ExecResult, State,
 };
 use mv::{hash_of, num_workers, problems::TagP, report::Local, Reporter, SplitMix64};
@@ -899,9 +899,160 @@ fn random_shape(rng: &mut SplitMix64, budget: &mut usize, depth: usize) -> Vec<I
     out
 }
 
+// ---- evaluation counter across scopes ---------------------------------------------------------
+// A leaf that counts like an evaluation step (init: a fresh `Evaluations(0)` in the scope it is initialised in; execute:
+// the innermost counter += 1) inside sequences, two-pass loops and scopes built with `Scope::new` / `scope_`: when a
+// scope is left, what its own counter holds goes to the nearest enclosing counter - and a counter that only ever
+// existed inside a scope is gone with it: the caller's state must not hold one afterwards.
+#[derive(Clone, Debug)]
+enum CTree {
+    Leaf,
+    Scope(Vec<CTree>),
+    Twice(Vec<CTree>),
+}
+
+#[derive(Clone, Serialize)]
+struct EvalLeaf;
+impl Component<TagP> for EvalLeaf {
+    fn init(&self, _: &TagP, state: &mut State<TagP>) -> ExecResult<()> {
+        state.insert(Evaluations(0));
+        Ok(())
+    }
+    fn execute(&self, _: &TagP, state: &mut State<TagP>) -> ExecResult<()> {
+        *state.try_borrow_value_mut::<Evaluations>()? += 1;
+        Ok(())
+    }
+}
+
+fn ev_build(items: &[CTree], direct: bool) -> Vec<Box<dyn Component<TagP>>> {
+    items
+        .iter()
+        .map(|e| -> Box<dyn Component<TagP>> {
+            match e {
+                CTree::Leaf => Box::new(EvalLeaf),
+                CTree::Scope(b) if direct => Scope::new(ev_build(b, direct)),
+                CTree::Scope(b) => Configuration::builder().scope_(|bb| ev_build(b, direct).into_iter().fold(bb, |bb, c| bb.do_(c))).build().into_inner(),
+                CTree::Twice(b) => Loop::new(mahf::conditions::LessThanN::iterations(2), ev_build(b, direct)),
+            }
+        })
+        .collect()
+}
+
+/// init of a level: a leaf at this level (not inside a nested scope) makes the level's counter Some(0)
+fn ev_init(items: &[CTree], top: &mut Option<u32>) {
+    for e in items {
+        match e {
+            CTree::Leaf => *top = Some(0),
+            CTree::Scope(_) => {}
+            CTree::Twice(b) => ev_init(b, top),
+        }
+    }
+}
+
+fn ev_exec(items: &[CTree], stack: &mut Vec<Option<u32>>, iters: &mut Vec<u32>) {
+    for e in items {
+        match e {
+            CTree::Leaf => {
+                if let Some(c) = stack.iter_mut().rev().flatten().next() {
+                    *c += 1;
+                }
+            }
+            // loops of one scope level share that level's pass counter (every `Loop::init` of the level resets it before
+            // execution begins, every completed pass of any of them counts): "fewer than 2 iterations" is tested against it
+            CTree::Twice(b) => {
+                while *iters.last().unwrap() < 2 {
+                    ev_exec(b, stack, iters);
+                    *iters.last_mut().unwrap() += 1;
+                }
+            }
+            CTree::Scope(b) => {
+                let mut top = None;
+                ev_init(b, &mut top);
+                stack.push(top);
+                iters.push(0);
+                ev_exec(b, stack, iters);
+                iters.pop();
+                if let Some(inner) = stack.pop().unwrap() {
+                    if let Some(c) = stack.iter_mut().rev().flatten().next() {
+                        *c += inner;
+                    }
+                }
+            }
+        }
+    }
+}
+
+fn ev_shapes(budget: usize, depth: usize) -> Vec<Vec<CTree>> {
+    // all sequences with exactly `budget` nodes
+    if budget == 0 {
+        return vec![vec![]];
+    }
+    let mut out = Vec::new();
+    for first in 1..=budget {
+        let mut heads: Vec<CTree> = Vec::new();
+        if first == 1 {
+            heads.push(CTree::Leaf);
+        }
+        if first >= 2 && depth < 3 {
+            for b in ev_shapes(first - 1, depth + 1) {
+                heads.push(CTree::Scope(b.clone()));
+                heads.push(CTree::Twice(b));
+            }
+        }
+        for h in heads {
+            for rest in ev_shapes(budget - first, depth) {
+                let mut v = vec![h.clone()];
+                v.extend(rest);
+                out.push(v);
+            }
+        }
+    }
+    out
+}
+
+fn scope_counter_section(rep: &Reporter) {
+    let max = rep.tier.pick(6usize, 8usize);
+    let mut n = 0u64;
+    for k in 1..=max {
+        for shape in ev_shapes(k, 0) {
+            for prefilled in [None, Some(5u32)] {
+                for direct in [true, false] {
+                    rep.case();
+                    n += 1;
+                    rep.nontrivial(hash_of(&("scope-counter", format!("{shape:?}"), prefilled, direct)));
+                    let mut st = State::<TagP>::new();
+                    st.insert(mahf::state::Random::new(1));
+                    if let Some(c) = prefilled {
+                        st.insert(Evaluations(c));
+                    }
+                    let cfg = Configuration::new(Block::new(ev_build(&shape, direct)));
+                    let r = mv::catch(|| cfg.run(&TagP, &mut st).map_err(|e| format!("{e:#}")));
+                    let mut stack = vec![prefilled];
+                    ev_init(&shape, &mut stack[0]);
+                    // a leaf that finds no counter at all fails (a shape whose root has a loop-less, scope-less leaf never does)
+                    ev_exec(&shape, &mut stack, &mut vec![0]);
+                    let want = stack[0];
+                    let got = st.try_get_value::<Evaluations>().ok();
+                    if !matches!(r, Ok(Ok(()))) {
+                        rep.violation("scope-counter:run-fails", json!({"tree": format!("{shape:?}"), "caller_counter_before": prefilled, "built_with": if direct { "Scope::new" } else { "scope_" }, "result": format!("{r:?}")}));
+                    } else if got != want {
+                        let kind = match (got, want) {
+                            (Some(_), None) => "counter-created-inside-a-scope-survives-in-the-caller-state",
+                            (None, Some(_)) => "caller-counter-lost",
+                            _ => "inner-count-not-added-to-the-nearest-enclosing-counter-exactly-once",
+                        };
+                        rep.violation(&format!("scope-counter:{kind}"), json!({"tree": format!("{shape:?}"), "caller_counter_before": prefilled, "built_with": if direct { "Scope::new" } else { "scope_" }, "caller_counter_after": got, "reference": want}));
+                    }
+                }
+            }
+        }
+    }
+    rep.count("scope_counter_cases", n);
+}
+
 fn main() {
     let rep = Reporter::from_args("C03");
-    rep.rule("configurations over {probe leaf (9 kinds: remove a marker in execute, state created lazily through the entry API in execute, plain, create marker in init, require marker, bump outer counter - through try_borrow_value_mut or through the entry API, shadow the caller's sentinel), sequence, while, if, if/else, scope; the scripted condition of a node plain or wrapped as !!c, c & traced-true-operand, c | traced-false-operand (constructors and operators), every operand traced and fault-injectable: all operands initialised, required and evaluated on every test, no short-circuit} built with the builder DSL and with Block/Loop/Branch/Scope::new, run with Configuration::run on a caller state holding sentinels; scripted condition outcomes (all sequences up to length 3 per condition) and every single fault point (node x phase x 1st/2nd call); the recorded (phase,node) trace, the returned result and the caller's final state are compared with a reference interpreter written from the statement. Exhaustive over all trees up to the stated node count; plus seeded random trees up to 40 nodes, depth <= 7. distinct_nontrivial = distinct (tree, scripts, fault) cases that failed, entered a scope, or had a zero-iteration loop");
+    rep.rule("configurations over {probe leaf (9 kinds: remove a marker in execute, state created lazily through the entry API in execute, plain, create marker in init, require marker, bump outer counter - through try_borrow_value_mut or through the entry API, shadow the caller's sentinel), sequence, while, if, if/else, scope; the scripted condition of a node plain or wrapped as !!c, c & traced-true-operand, c | traced-false-operand (constructors and operators), every operand traced and fault-injectable: all operands initialised, required and evaluated on every test, no short-circuit} built with the builder DSL and with Block/Loop/Branch/Scope::new, run with Configuration::run on a caller state holding sentinels; scripted condition outcomes (all sequences up to length 3 per condition) and every single fault point (node x phase x 1st/2nd call); the recorded (phase,node) trace, the returned result and the caller's final state are compared with a reference interpreter written from the statement. Exhaustive over all trees up to the stated node count; plus seeded random trees up to 40 nodes, depth <= 7; plus all trees up to 6 (thorough: 8) nodes over {counting leaf (init: fresh evaluation counter, execute: innermost counter += 1), two-pass loop, scope} on a caller state with and without a counter: the caller's counter afterwards equals the reference (inner counts go to the nearest enclosing counter once, a counter that only existed inside a scope is gone). distinct_nontrivial = distinct (tree, scripts, fault) cases that failed, entered a scope, or had a zero-iteration loop");
     rep.assume("Script conditions keep their position harness-side and reset it in init(); Iterations is only compared when no scope level holds two loops");
     let max_nodes = rep.tier.pick(3usize, 4usize);
     rep.set("exhaustive_max_nodes", json!(max_nodes));
@@ -976,6 +1127,7 @@ fn main() {
             });
         }
     });
+    scope_counter_section(&rep);
     rep.exhaustive(true);
     rep.finish();
 }
